@@ -63,7 +63,26 @@ def check_wallet(case, ctx):
             call(decoy.node_extended_keys, dn)
             call(decoy.p2wsh_address, dn)
     call(decoy.wasabi_json)
-    w = PaperWallet.from_bip39_seed_bytes(case["seed"], testnet)
+    # the wallet as the caller holds it: fresh; created with the flag spelled 0 / 1; or a duplicate of a wallet
+    # (copy.deepcopy, pickle round trip) - a duplicate is the same wallet on the same network
+    wform = case.get("wform", "plain")
+    if wform == "int-flag":
+        st_, w = call(PaperWallet.from_bip39_seed_bytes, case["seed"], int(testnet))
+        if st_ == "exc":
+            ctx.count("non-bool-flag-refused (not judged)")
+            w = PaperWallet.from_bip39_seed_bytes(case["seed"], testnet)
+    else:
+        w = PaperWallet.from_bip39_seed_bytes(case["seed"], testnet)
+    if wform in ("deepcopy", "pickle"):
+        import copy
+        import pickle
+        call(w.master.derive_path, [H + 84, H + (1 if testnet else 0), H])
+        st_, dup = call(copy.deepcopy, w) if wform == "deepcopy" else call(lambda: pickle.loads(pickle.dumps(w)))
+        if st_ == "exc":
+            ctx.count("wallet-not-copyable[%s] (not judged)" % wform)
+        else:
+            w = dup
+    ctx.count("wallet-form:" + wform)
     acct, iv = case["account"], [case["start"], case["start"] + case["rows"]]
     st_, data = call(w.generate, acct, tuple(iv))
     if st_ == "exc":
@@ -322,9 +341,10 @@ def clauses():
                    "seed": S.seeds(16, 64), "testnet": st.booleans(),
                    "account": st.one_of(st.sampled_from([0, 1, H - 2]), st.integers(0, H - 2)),
                    "start": st.one_of(st.sampled_from([0, 1, H - 5]), st.integers(0, H - 5)), "rows": st.integers(0, 3),
-                   "paths": st.lists(node_paths(), min_size=1, max_size=4)}),
+                   "paths": st.lists(node_paths(), min_size=1, max_size=4),
+                   "wform": st.sampled_from(["plain", "plain", "int-flag", "deepcopy", "pickle"])}),
                nontrivial=lambda c: c["testnet"] or any(len(p) >= 2 and p[1] in (H + 1, 1) for p in c["paths"]),
-               classes=lambda c: ["test" if c["testnet"] else "main", "rows=%d" % c["rows"]],
+               classes=lambda c: ["test" if c["testnet"] else "main", "rows=%d" % c["rows"], "wallet:" + c.get("wform", "plain")],
                n={"quick": 220, "thorough": 8000}, shards={"quick": 16, "thorough": 16}),
         Clause("node-flag-mismatch", check_mismatch,
                "PaperWallet(master, testnet) (positional and keyword) where the master node carries the other network's "
